@@ -320,6 +320,7 @@ namespace vf
     /// dense inverse by Gauss-Jordan with partial pivoting
     inline bool gj_inverse(int N, std::vector<LD> a, std::vector<LD>& inv)
     {
+      const std::vector<LD> a0 = a;
       inv.assign((size_t)(N * N), 0.0L); for(int i = 0; i < N; ++i) inv[i * N + i] = 1;
       for(int k = 0; k < N; ++k)
       {
@@ -329,6 +330,16 @@ namespace vf
         LD d = a[k * N + k]; for(int j = 0; j < N; ++j) { a[k * N + j] /= d; inv[k * N + j] /= d; }
         for(int i = 0; i < N; ++i) if(i != k) { LD f = a[i * N + k]; if(f == 0) continue; for(int j = 0; j < N; ++j) { a[i * N + j] -= f * a[k * N + j]; inv[i * N + j] -= f * inv[k * N + j]; } }
       }
+      // Gauss-Jordan is not componentwise stable: two Newton-Schulz steps X <- X + X (I - A X) bring the forward error
+      // down to the level of the rounding in the residual, ~ N u (|X||A||X|)_ij
+      for(int it = 0; it < 2; ++it)
+      {
+        std::vector<LD> R((size_t)(N * N)), X2 = inv;
+        for(int i = 0; i < N; ++i) for(int j = 0; j < N; ++j) { LD s2 = (i == j) ? 1.0L : 0.0L; for(int q = 0; q < N; ++q) s2 -= a0[(size_t)(i * N + q)] * inv[(size_t)(q * N + j)]; R[(size_t)(i * N + j)] = s2; }
+        for(int i = 0; i < N; ++i) for(int j = 0; j < N; ++j) { LD s2 = 0; for(int q = 0; q < N; ++q) s2 += inv[(size_t)(i * N + q)] * R[(size_t)(q * N + j)]; X2[(size_t)(i * N + j)] += s2; }
+        inv = X2;
+      }
+      for(LD x : inv) if(!std::isfinite((double)x)) return false;
       return true;
     }
 
@@ -782,6 +793,7 @@ namespace vf
           solver->apply(vout, vin);
           EV ref = o.ilu_solve(w.F, e);
           for(int i = 0; i < N; ++i) { if(!ref[(size_t)i].ok()) { solver->done(); return; } Minv[(size_t)(i * N + j)] = (LD)T::vp(vout)[i]; Eb[(size_t)(i * N + j)] = K * ref[(size_t)i].e + tiny(); }
+          compare("probe-unit-vector", j, vout, ref);
         }
         solver->done();
         std::vector<LD> Mref = o.ilu_product(w.F), Mhat;
@@ -793,14 +805,18 @@ namespace vf
         if(!(nrm < 1e-2L)) return;
         if(!gj_inverse(N, Minv, Mhat)) VF_FAIL("mismatch:ilu probe: M^-1 obtained from unit vectors is singular");
         for(int i = 0; i < N; ++i) for(int q = 0; q < N; ++q) { LD m = ME[(size_t)(i * N + q)]; if(m == 0) continue; for(int j = 0; j < N; ++j) T2[(size_t)(i * N + j)] += m * fabsl(Mref[(size_t)(q * N + j)]); }
+        // forward error of the long-double inversion itself: |dX| <= c N u_ld (|X| |Minv| |X|)  (matters for ill-conditioned M)
+        std::vector<LD> XA((size_t)(N * N), 0.0L), T3((size_t)(N * N), 0.0L); const LD uld = std::numeric_limits<LD>::epsilon();
+        for(int i = 0; i < N; ++i) for(int q = 0; q < N; ++q) { LD m = fabsl(Mhat[(size_t)(i * N + q)]); if(m == 0) continue; for(int j = 0; j < N; ++j) XA[(size_t)(i * N + j)] += m * fabsl(Minv[(size_t)(q * N + j)]); }
+        for(int i = 0; i < N; ++i) for(int q = 0; q < N; ++q) { LD m = XA[(size_t)(i * N + q)]; if(m == 0) continue; for(int j = 0; j < N; ++j) T3[(size_t)(i * N + j)] += m * fabsl(Mhat[(size_t)(q * N + j)]); }
         for(int bi = 0; bi < cs.n; ++bi) for(int bj = 0; bj < cs.n; ++bj)
         {
           if(!w.P[(size_t)(bi * cs.n + bj)]) continue;
           for(int a = 0; a < B; ++a) for(int b = 0; b < B; ++b)
           {
             const int r = bi * B + a, s = bj * B + b; const LD aij = w.D(r, s);
-            const LD tol = 2 * T2[(size_t)(r * N + s)] + fabsl(Mref[(size_t)(r * N + s)] - aij) + 1e-15L * (1 + fabsl(aij));
-            VF_CHECK(fabsl(Mhat[(size_t)(r * N + s)] - aij) <= tol, "ilu(" << cs.p << ") probe: (LU)[" << r << "," << s << "]=" << (double)Mhat[(size_t)(r * N + s)] << " but A=" << (double)aij << " on the level-p pattern, tol " << (double)tol);
+            const LD tol = 2 * T2[(size_t)(r * N + s)] + 64.0L * N * uld * T3[(size_t)(r * N + s)] + fabsl(Mref[(size_t)(r * N + s)] - aij) + 1e-15L * (1 + fabsl(aij));
+            VF_CHECK(fabsl(Mhat[(size_t)(r * N + s)] - aij) <= tol, "ilu(" << cs.p << ") probe: (LU)[" << r << "," << s << "]=" << (double)Mhat[(size_t)(r * N + s)] << " but A=" << (double)aij << " on the level-p pattern, diff " << (double)fabsl(Mhat[(size_t)(r * N + s)] - aij) << " tol " << (double)tol << " (first-order part " << (double)T2[(size_t)(r * N + s)] << ", |M|E norm " << (double)nrm << ")");
           }
         }
       }
